@@ -10,7 +10,7 @@ from harness.impl.reader import run_reader
 
 IMPORTS = "From Ford Require Import Base.Str Lex.Quote Lex.Reader Lex.ReaderSpec Corr.C02."
 THEOREMS = ["C02_unterminated_tokens", "C02_unterminated_open_literal", "C02_comment_found",
-            "C02_no_comment_in_literal", "C02_semicolon_split", "C02_file_statements", "C02_layout_invariance",
+            "C02_no_comment_in_literal", "C02_semicolon_split", "C02_file_statements", "C02_layout_invariance", "C02_joined_all_amp",
             "C02_partial", "C02_partial_refuted_comment_after_literal", "C02_partial_refuted_comment_in_literal"]
 REGIONS = {"comment_after_cont_lit": 1, "comment_in_cont_lit": 2}
 FINDING_KEYS = {1: "comment-after-continued-literal", 2: "comment-line-inside-continued-literal",
